@@ -468,6 +468,17 @@ type fileInfo struct {
 
 func (fi fileInfo) ModTime() time.Time { return fi.mt }
 
+// SameFile is os.SameFile for FileInfo values that may carry a simulated mtime.
+func SameFile(fi1, fi2 fs.FileInfo) bool {
+	if w, ok := fi1.(fileInfo); ok {
+		fi1 = w.FileInfo
+	}
+	if w, ok := fi2.(fileInfo); ok {
+		fi2 = w.FileInfo
+	}
+	return os.SameFile(fi1, fi2)
+}
+
 func wrapInfo(path string, fi fs.FileInfo) fs.FileInfo {
 	if fi == nil {
 		return nil
